@@ -43,6 +43,8 @@ CONSTANTS MaxChain,      \* 1..3 length of the longest chain
           ImageShapes,   \* base back-end/image of c[1]: subset of ImageShapeNames
           MaxFeatures,   \* bound on the number of non-default features of a base (keeps the quick tier small)
           Schemes,       \* naming schemes RenameComponents may switch to (rendered by the driver)
+          NamingSchemes, \* naming schemes of the extra "naming" base worlds (replica-like names, see NameBases)
+          NamingChain,   \* longest chain of a naming base world
           Emit           \* TRUE: print every pair as JSON
 
 OwnShapeNames   == {"none", "input-ref", "input-copy", "input-output", "data-ref", "data-copy", "appdep-ref", "appdep-link"}
@@ -95,12 +97,22 @@ Producer(up) == Comp(File("input", "k2", "ref", "f2"), up, "local")
 (* time, whether the components are replicas                                                                          *)
 Where0 == [loc |-> "A", scheme |-> "plain", stageNames |-> "s", shift |-> 0, time |-> 0, replicated |-> FALSE]
 
+(* A bystander ("sibling"): a component without references that lives in the stage of the deepest component c[n] (the  *)
+(* one that carries `replicate` when the world is replicated) and runs ANOTHER executable with ANOTHER argument.       *)
+(* It exists for the naming relations: replicas are called <blueprint><index>, so the name of a sibling may look like  *)
+(* the blueprint of a replica (`gen` next to the replicas gen10, gen11 of `gen1`) or like a replica of another         *)
+(* component (`gen7` next to the replicas gen0, gen1 of `gen`).  Whoever maps a name to the wrong definition changes    *)
+(* the identity: the sibling's executable differs from everybody else's.                                               *)
+NoSibling == [present |-> FALSE, exe |-> "e3", lit |-> "l3"]
+Sibling   == [present |-> TRUE,  exe |-> "e3", lit |-> "l3"]
+
 World(n, own1, up1, img1, same, up2) ==
     [n |-> n,
      c |-> [i \in 1..3 |-> CASE i = 1 -> Comp(OwnOf(own1), IF n >= 2 THEN UpOf(up1) ELSE NoFile, img1)
                              [] i = 2 -> IF n >= 2 THEN Producer(IF n = 3 THEN UpOf(up2) ELSE NoFile) ELSE Dummy
                              [] i = 3 -> IF n = 3 THEN Producer(NoFile) ELSE Dummy],
      same |-> same,          \* c[1] and c[2] live in the same stage (then the reference may be spelled relatively)
+     sib |-> NoSibling,
      where |-> Where0]
 
 Default == [own |-> "input-ref", up |-> "pfile-ref", img |-> "local", same |-> FALSE, up2 |-> "pfile-ref"]
@@ -113,6 +125,11 @@ Bases == { World(p[1], p[2], p[3], p[4], p[5], p[6]) :
                         /\ Features(q[1], q[2], q[3], q[4], q[5], q[6]) <= MaxFeatures
                         /\ q[1] = 1 => (q[3] = Default.up /\ ~q[5])          \* canonical: unused parameters at default
                         /\ q[1] < 3 => q[6] = Default.up2 } }
+
+(* naming base worlds: default shapes, a sibling, a naming scheme with replica-like names, replicated or not *)
+NameBases == { [World(n, Default.own, Default.up, Default.img, FALSE, Default.up2)
+                    EXCEPT !.sib = Sibling, !.where.scheme = s, !.where.replicated = r] :
+                 n \in 1..NamingChain, s \in NamingSchemes, r \in BOOLEAN }
 
 ---------------------------------------------------------------------------
 (* The abstract identities *)
@@ -149,6 +166,9 @@ Strong(w, i) ==
              files |-> Bag2(ownF, upF),
              image |-> c.image]
 
+(* the sibling consumes nothing: its strong and fuzzy identity coincide *)
+SibId(w) == [def |-> TRUE, exe |-> w.sib.exe, args |-> <<w.sib.lit, NoTok, NoTok>>, files |-> {}, image |-> "none"]
+
 RECURSIVE Fuzzy(_, _)
 Fuzzy(w, i) ==
     LET c == w.c[i]
@@ -169,9 +189,10 @@ Fuzzy(w, i) ==
 (* The pair generator: one action per aspect *)
 
 NoAsp == [kind |-> "none", at |-> 0]
+SibAt == 9          \* "position" of the sibling: not an index of the chain
 Other(x, s) == CHOOSE y \in s : y # x
 
-Init == /\ phase = "base" /\ a \in Bases /\ b = a /\ asp = NoAsp
+Init == /\ phase = "base" /\ a \in (Bases \cup NameBases) /\ b = a /\ asp = NoAsp
 
 Pair(kind, at, w) == /\ phase = "base" /\ phase' = "pair" /\ a' = a /\ b' = w /\ asp' = [kind |-> kind, at |-> at]
 
@@ -215,7 +236,10 @@ RenameComponents(s)   == s \in Schemes /\ s # a.where.scheme /\ Pair("rename", 0
 RenameStages          == phase = "base" /\ Pair("stageName", 0, SetWhere("stageNames", "t"))
 ShiftStages           == phase = "base" /\ Pair("stageShift", 0, SetWhere("shift", 1))
 ChangeTime            == phase = "base" /\ Pair("time", 0, SetWhere("time", 1))
-Replicate             == phase = "base" /\ Pair("replicate", 0, SetWhere("replicated", TRUE))
+Replicate             == ~a.where.replicated /\ Pair("replicate", 0, SetWhere("replicated", TRUE))
+(* only the bystander changes: no hash of the chain may move, the bystander's own hash must *)
+ChangeSiblingExecutable == a.sib.present /\ Pair("sibExe", SibAt, [a EXCEPT !.sib.exe = "e4"])
+ChangeSiblingLiteral    == a.sib.present /\ Pair("sibLit", SibAt, [a EXCEPT !.sib.lit = "l4"])
 Identity              == phase = "base" /\ Pair("identity", 0, a)
 
 (* -- missing files -------------------------------------------------------- *)
@@ -227,8 +251,9 @@ Next == \/ \E i \in 1..3 : \/ ChangeExecutable(i) \/ ChangeLiteral(i) \/ ChangeO
                            \/ ChangeBackendOnly(i) \/ ChangeResources(i) \/ ChangeEnvironment(i)
                            \/ RemoveOwnFile(i) \/ RemoveProducedFile(i)
         \/ \E i \in 1..3, m \in {"ref", "copy", "link", "output"} : ChangeOwnMethod(i, m) \/ ChangeUpMethod(i, m)
-        \/ \E s \in {"plain", "renamed", "affix", "affix2", "digits", "digitmid"} : RenameComponents(s)
+        \/ \E s \in {"plain", "renamed", "affix", "affix2", "digits", "digitmid", "repldigit", "repldigit2", "replsib"} : RenameComponents(s)
         \/ RespellReference \/ MoveInstance \/ RenameStages \/ ShiftStages \/ ChangeTime \/ Replicate \/ Identity
+        \/ ChangeSiblingExecutable \/ ChangeSiblingLiteral
 
 Spec == Init /\ [][Next]_vars
 
@@ -243,6 +268,8 @@ DirectKinds == {"exe", "lit", "ownContent", "ownMethod", "upContent", "upMethod"
 IrrelevantKinds == {"viaVar", "ownName", "upName", "respell", "backendOnly", "resources", "environment", "move",
                     "rename", "stageName", "stageShift", "time", "replicate", "identity"}
 MissingKinds == {"ownMissing", "upMissing"}
+(* changes of the bystander: irrelevant for every component of the chain (x.at = SibAt is no chain index), relevant for it *)
+SiblingKinds == {"sibExe", "sibLit"}
 
 (* a change at component `at` matters for the strong hash of c[i] iff it is a change of c[i] itself or it reaches c[i] *)
 (* through directory references (the content of a produced directory is identified with the work that produced it)    *)
@@ -267,7 +294,8 @@ Chain == 1..a.n
 InPair == phase = "pair"
 
 TypeOK == /\ phase \in {"base", "pair"} /\ a.n \in 1..MaxChain /\ b.n = a.n
-          /\ asp.kind \in DirectKinds \cup IrrelevantKinds \cup MissingKinds \cup {"none"}
+          /\ asp.kind \in DirectKinds \cup IrrelevantKinds \cup MissingKinds \cup SiblingKinds \cup {"none"}
+          /\ asp.kind \in SiblingKinds <=> asp.at = SibAt
 
 (* C16, strong: equal exactly when nothing hash-relevant differs *)
 StrongExactly == InPair => \A i \in Chain :
@@ -282,6 +310,8 @@ FuzzyFollowsProducer == InPair => \A i \in Chain :
                     (HasUp(a, i) /\ Fuzzy(a, i).def /\ Fuzzy(b, i).def /\ Fuzzy(a, i + 1) # Fuzzy(b, i + 1)) => Fuzzy(a, i) # Fuzzy(b, i)
 FuzzyExactly == InPair => \A i \in Chain :
                     (Fuzzy(a, i).def /\ Fuzzy(b, i).def /\ FuzzyClaimed(a, i, asp)) => ((Fuzzy(a, i) = Fuzzy(b, i)) <=> ~RelevantF(a, i, asp))
+(* the bystander: its identity moves exactly with its own definition, whatever else changes in the world *)
+SiblingExactly == (InPair /\ a.sib.present) => ((SibId(a) = SibId(b)) <=> asp.kind \notin SiblingKinds)
 (* the base world is complete: every pair compares with a defined hash *)
 BaseComplete == \A i \in Chain : CompleteFrom(a, i)
 
@@ -300,5 +330,6 @@ Obs(i) == [i |-> i,
            fclaimed |-> FuzzyClaimed(a, i, asp),
            \* definedness of the fuzzy hash is only claimed where the property decides it
            fdefClaimed |-> (OwnMissing(b, i) \/ CompleteFrom(b, i))]
-EmitPair == (Emit /\ InPair) => PrintT(ToJson([a |-> a, b |-> b, asp |-> asp, obs |-> [i \in Chain |-> Obs(i)]]))
+EmitPair == (Emit /\ InPair) => PrintT(ToJson([a |-> a, b |-> b, asp |-> asp, obs |-> [i \in Chain |-> Obs(i)],
+                                                sib |-> [present |-> a.sib.present, rel |-> Rel(SibId(a), SibId(b))]]))
 =============================================================================
